@@ -205,7 +205,7 @@ def find_real_instance(run, v):
 
 def _instance_shows(run, v, cv, base):
     a = None
-    for rel in (False, True):
+    for rel in (False,):      # the dev profile decides; the release profile is recorded by the caller's replay file
         if v['rule'] in ('CHUNKING',):
             a = run.native([dict(base, chunks=cv.get('chunks') or [], tail=1)], release=rel)[0]
             b = run.native([dict(base, chunks=[], tail=1)], release=rel)[0]
